@@ -15,7 +15,7 @@ const (
 
 var (
 	rComment = regexp.MustCompile(`@tag (.*)`) // 匹配注入 tag
-	rInject  = regexp.MustCompile("`.+`$")
+	rInject  = regexp.MustCompile("`[^`]+`$") // 只匹配字段末尾的那一个 tag(字段类型里可能还有别的 tag, 如单行的匿名结构体)
 	rTags    = regexp.MustCompile(`\w+:"[^"]+"`) // 匹配 tag
 )
 
